@@ -63,12 +63,13 @@ theorem append_open_total (fa : Option Nat) (d : Dev) :
   ⟨newAppend_noPanic.elim fa d, newAppend_readOnly.elim fa d⟩
 
 /-- After a successful `new_append` the writer stands inside the input: at the directory start,
-which is at most `cde_start_pos ≤ len - 22` (fault-free run; under an injected fault on the final,
-ignored seek it stands wherever the header loop stopped, still inside the input).  What `finish()`
-later adds is therefore bounded by the records it writes, not by a number read from the input. -/
+which is at most `cde_start_pos ≤ len - 22` — under every fault index too (since the D22 repair the
+final, repositioning seek reports its failure: `Ok` means the writer stands on the directory start).
+What `finish()` later adds is therefore bounded by the records it writes, not by a number read from
+the input. -/
 theorem append_open_position_bounded {fa : Option Nat} {d d' : Dev} {s : WState}
     (h : newAppend fa d = (.ok s, d')) :
-    d'.buf = d.buf ∧ d'.pos ≤ d.buf.length ∧ (fa = none → d'.pos + 22 ≤ d.buf.length) :=
+    d'.buf = d.buf ∧ d'.pos + 22 ≤ d.buf.length :=
   newAppend_position_bounded h
 
 /-- The only `panic` of the reader model is reachable in principle (so `DevSane` is a real
